@@ -195,3 +195,69 @@ def rule_array_immut(ctx):
     r.floor(n, 2000, "functions scanned under quimb/tensor")
     # how many array-valued reads were tracked (non-vacuity of the A-origin)
     return r
+
+
+PURE_DUNDERS = {
+    "__add__", "__sub__", "__mul__", "__truediv__", "__pow__", "__and__", "__or__", "__matmul__", "__xor__",
+    "__rshift__", "__lshift__", "__neg__", "__pos__", "__abs__", "__radd__", "__rsub__", "__rmul__",
+    "__rtruediv__", "__rpow__", "__rmatmul__", "__floordiv__", "__mod__", "__invert__", "__eq__", "__ne__",
+    "__getitem__", "__contains__", "__len__", "__iter__", "__repr__", "__str__", "__copy__", "__call__",
+}
+
+
+OPERATOR_EXEMPT = {
+    "Tensor.__or__": "`|` builds a *virtual* network that shares its operands' tensors by design; colliding inner "
+                     "bond labels are mangled on the shared tensors (a value-preserving rename of internal labels)",
+    "TensorNetwork.__or__": "same: virtual combination, inner-label mangling on shared tensors is the documented semantics",
+}
+
+
+def rule_operator_pure(ctx):
+    r = RuleResult(
+        "operator-pure",
+        "binary / unary operators of the tensor classes are the plain spelling of their in-place twins (`__iop__`): "
+        "every non-in-place operator method of Tensor / TensorNetwork (including the arithmetic operators that "
+        "are generated by a factory and attached with setattr) reaches no mutation effect on either operand",
+    )
+    eff = ctx.eff
+    targets = []
+    # (a) explicit dunder methods
+    for c in ctx.prog.all_classes():
+        if not eff.in_tensor_world(c):
+            continue
+        for name, f in c.methods.items():
+            if f.cls is c and not f.is_alias and name in PURE_DUNDERS and name not in ("__call__", "__getitem__", "__iter__"):
+                targets.append((f"{c.name}.{name}", f))
+    # (b) factory-made operators:  setattr(Tensor, meth_name, factory(op, meth_name))
+    m = ctx.prog.module("quimb.tensor.tensor_core")
+    factories = set()
+    for n in ast.walk(m.tree):
+        if isinstance(n, ast.Call) and isinstance(n.func, ast.Name) and n.func.id == "setattr" and len(n.args) == 3:
+            v = n.args[2]
+            if isinstance(v, ast.Call) and isinstance(v.func, ast.Name) and v.func.id in m.functions:
+                factories.add(v.func.id)
+    for fac in sorted(factories):
+        for f in m.all_functions:
+            if f.parent is not None and f.parent.name == fac and f.parent.parent is None:
+                targets.append((f"{fac}.<locals>.{f.name}", f))
+    r.floor(len(targets), 12, "operator functions")
+    for label, f in targets:
+        s = eff.summary(f, {})
+        bad = None
+        for prm in f.posparams[:2]:
+            sure = [mu for mu in s.mut.get(prm, []) if mu.sure and mu.level in ("obj", "elem")]
+            if sure:
+                bad = (prm, sure[0])
+                break
+        if bad and label in OPERATOR_EXEMPT:
+            r.exempt(label, OPERATOR_EXEMPT[label])
+        elif bad:
+            prm, mu = bad
+            r.bad(Finding(
+                "operator-pure", label,
+                f"non-in-place operator mutates its operand `{prm}`: {mu.what} (line {mu.line})",
+                where=f"{f.module.relpath}:{f.lineno}", operand=prm, detail=[f"via {c}" for c in mu.chain],
+            ))
+        else:
+            r.ok(label, sample={"operator": label, "operands": f.posparams[:2], "effect": "none reaches the operands"})
+    return r
